@@ -311,7 +311,7 @@ theorem C10_cex_abs_link_into_workdir :
     r.2 = .ok c10F ∧
     r.1.get (c10F ++ ["d".toList]) = some (.link "/t/b/.tmp-1/a".toList) ∧
     r.1.evalSymlinks "/t/b/HASH/d".toList = none ∧
-    r.1.readFile "/t/b/HASH/d".toList = .error .enoent ∧
+    (r.1.readFile "/t/b/HASH/d".toList).toOption = none ∧
     (∀ q, c10W <+: q → r.1.get q = none) := by
   have hrun : ensurePrepared c10FsAbs c10Work c10Final =
       ([(["t","b","HASH","d"].map String.toList, .link "/t/b/.tmp-1/a".toList),
@@ -334,7 +334,132 @@ theorem C10_cex_abs_link_hyps :
     AbsClean c10Work ∧ pathSegs c10Work = c10W ∧ pathSegs c10Final = c10F ∧
     ¬ c10W <+: c10F ∧ ¬ c10F <+: c10W ∧
     (∀ e ∈ c10FsAbs, ¬ c10F <+: e.1) ∧
-    ¬ (∀ e ∈ c10FsAbs, ∀ t, e.2 = .link t → isAbs t = false) := by
+    c10FsAbs.get (c10W ++ ["d".toList]) = some (.link "/t/b/.tmp-1/a".toList) ∧
+    isAbs "/t/b/.tmp-1/a".toList = true := by
+  refine ⟨by unfold AbsClean; decide, ?_⟩
   decide
+
+/-! ## 5. what the ignore rules exclude is removed -/
+
+/-- **C10_ignored_removed.** A visited path (file, link, directory, anything) that the rules exclude
+is removed with everything below it, and the walk goes on. -/
+theorem C10_ignored_removed (rules : List Rule) (root : Str) (fs : FS) (absPath : Str) (node : Node)
+    (rel : Str) (hrel : pathRel root absPath = some rel) (hdot : rel ≠ dot)
+    (hex : (excludes rules rel).1 = true) :
+    prepVisit rules root fs absPath node = (fs.removeAll absPath, .cont) := by
+  rw [prepVisit_eq]
+  simp only [hrel, hdot, hex, if_false, if_true]
+
+/-- a directory excluded only as a directory (`rel/` matches) is removed and not descended into -/
+theorem C10_ignored_dir_removed (rules : List Rule) (root : Str) (fs : FS) (absPath : Str) (pm : Nat) (mt : Int)
+    (rel : Str) (hrel : pathRel root absPath = some rel) (hdot : rel ≠ dot)
+    (hex : (excludes rules rel).1 = false) (hexd : (excludes rules (rel ++ ['/'])).1 = true) :
+    prepVisit rules root fs absPath (.dir pm mt) = (fs.removeAll absPath, .skipDir) := by
+  rw [prepVisit_eq]
+  simp only [hrel, hdot, hex, hexd, snIsDir, Bool.and_self, if_false, if_true, Bool.false_eq_true]
+
+/-- … and `RemoveAll` does remove it: when the components of the path above the last are real
+directories and `Lstat` found the node, nothing stays bound at or below its physical location. -/
+theorem C10_ignored_removed_gone (fs : FS) (absPath : Str) (node : Node) (hc : AbsClean absPath)
+    (hreal : RealDir fs (pathSegs absPath).dropLast) (hne : pathSegs absPath ≠ [])
+    (hl : fs.lstat absPath = .ok node) :
+    ∀ q, pathSegs absPath <+: q → (fs.removeAll absPath).get q = none :=
+  sn_removeAll_gone (sanAt_of_realParent hc hreal) hne hl
+
+/-- the same for any path the walk visits (`SanAt`: no link above the last component) -/
+theorem C10_ignored_removed_gone_at (W : PPath) (fs : FS) (absPath : Str) (node : Node)
+    (hA : SanAt W fs absPath) (hne : pathSegs absPath ≠ []) (hl : fs.lstat absPath = .ok node) :
+    ∀ q, pathSegs absPath <+: q → (fs.removeAll absPath).get q = none :=
+  sn_removeAll_gone hA hne hl
+
+/-! ## 6. the walk only deletes, and only below the work directory -/
+
+/-- **C10_only_deletes.** Whatever the tree, the rules and the result, the walk only removes
+bindings. -/
+theorem C10_only_deletes (rules : List Rule) (root : Str) (fuel : Nat) (fs : FS) (path : Str) (node : Node) :
+    ∀ q, (prepWalk rules root fuel fs path node).1.get q = fs.get q ∨
+      (prepWalk rules root fuel fs path node).1.get q = none :=
+  (snSub_walk rules root fuel).1 fs path node
+
+/-- every path handed to the callback below a walked directory is as `SanAt` says: the start of the
+walk of the work directory -/
+theorem C10_work_is_sanAt (fs : FS) (work : Str) (hc : AbsClean work) (hreal : RealDir fs (pathSegs work)) :
+    SanAt (pathSegs work) fs work := sanAt_root hc hreal
+
+/-- **C10_frame.** The walk of the work directory changes nothing outside it: a binding is either
+kept, or it was at or below `W` and is gone. -/
+theorem C10_frame (rules : List Rule) (root : Str) (fuel : Nat) (fs : FS) (work : Str) (node : Node)
+    (hc : AbsClean work) (hreal : RealDir fs (pathSegs work)) (hN : SanNames (pathSegs work) fs)
+    (hl : fs.lstat work = .ok node) :
+    ∀ q, ¬ pathSegs work <+: q → (prepWalk rules root fuel fs work node).1.get q = fs.get q :=
+  ((snStep_walk rules root (pathSegs work) fuel).1 fs work node hN (sanAt_root hc hreal) hl).frame
+
+/-- the walk keeps `KeysPhysical` (whole subtrees are removed) -/
+theorem C10_walk_keysPhysical (rules : List Rule) (root : Str) (fuel : Nat) (fs : FS) (work : Str) (node : Node)
+    (hc : AbsClean work) (hreal : RealDir fs (pathSegs work)) (hN : SanNames (pathSegs work) fs)
+    (hl : fs.lstat work = .ok node) (hk : KeysPhysical fs) :
+    KeysPhysical (prepWalk rules root fuel fs work node).1 :=
+  ((snStep_walk rules root (pathSegs work) fuel).1 fs work node hN (sanAt_root hc hreal) hl).keys hk
+
+/-- after the walk the work directory still resolves to itself -/
+theorem sn_work_resolves {fs fs1 : FS} {work : Str} (hc : AbsClean work) (hreal : RealDir fs (pathSegs work))
+    (hs : SnSub fs1 fs) {wp : PPath} (h : fs1.resolvePath work true = .ok wp) :
+    wp = pathSegs work ∧ fs1.resolvePath work false = .ok (pathSegs work) := by
+  have hA : SanAt (pathSegs work) fs1 work := (sanAt_root hc hreal).sub hs
+  have hnl := sn_notLink_sub hs (sn_root_notLink hreal)
+  rw [hA.resolve_eq hnl] at h
+  have := hA.resolve_false h
+  subst this
+  exact ⟨rfl, h⟩
+
+/-- **C10_frame_ensure.** `ensurePrepared` — walk, hash, rename or drop — changes nothing outside
+the work directory and the final directory, whatever the result. -/
+theorem C10_frame_ensure (fs : FS) (work final : Str)
+    (hc : AbsClean work) (hreal : RealDir fs (pathSegs work)) (hN : SanNames (pathSegs work) fs) :
+    ∀ q, ¬ pathSegs work <+: q → ¬ pathSegs final <+: q →
+      (ensurePrepared fs work final).1.get q = fs.get q := by
+  intro q hq1 hq2
+  rcases sn_ensure_fst fs work final with e | ⟨n, hl, e⟩
+  · rw [e]
+  · have hstep := (snStep_walk (snRules fs work) work (pathSegs work) prepFuel).1 fs work n hN
+      (sanAt_root hc hreal) hl
+    generalize (prepWalk (snRules fs work) work prepFuel fs work n).1 = fs1 at hstep e
+    have hA : SanAt (pathSegs work) fs1 work := (sanAt_root hc hreal).sub hstep.sub
+    rcases e with e | e
+    · rw [e]; exact hstep.frame q hq1
+    · rw [e]
+      rcases sn_finish_fst fs1 work final with e' | e' | ⟨wp, hwp, e'⟩
+      · rw [e']; exact hstep.frame q hq1
+      · rw [e', (snStep_removeAll hA).frame q hq1]; exact hstep.frame q hq1
+      · obtain ⟨rfl, _⟩ := sn_work_resolves hc hreal hstep.sub hwp
+        rw [e', sn_renameDir_frame _ _ _ _ hq1 hq2]; exact hstep.frame q hq1
+
+/-! ## 7. no temporary directory is left -/
+
+/-- **C10_no_tmp_left.** After a successful `ensurePrepared` no name at or below the work directory is
+bound any more (the final directory is neither inside the work directory nor above it). -/
+theorem C10_no_tmp_left (fs : FS) (work final : Str) (fs' : FS) (d : PPath)
+    (hc : AbsClean work) (hreal : RealDir fs (pathSegs work))
+    (h1 : ¬ pathSegs work <+: pathSegs final) (h2 : ¬ pathSegs final <+: pathSegs work)
+    (h : ensurePrepared fs work final = (fs', .ok d)) :
+    d = pathSegs final ∧ ∀ q, pathSegs work <+: q → fs'.get q = none := by
+  obtain ⟨n, fs1, r, hl, hw, _, hf⟩ := sn_ensure_ok h
+  obtain ⟨wp, hwp, _, hd, hcase⟩ := sn_finish_ok hf
+  refine ⟨hd, ?_⟩
+  have hs : SnSub fs1 fs := by
+    have := (snSub_walk (snRules fs work) work prepFuel).1 fs work n
+    rw [hw] at this; exact this
+  obtain ⟨rfl, hres⟩ := sn_work_resolves hc hreal hs hwp
+  have hWne : pathSegs work ≠ [] := by
+    intro e; apply h1; rw [e]; exact List.nil_prefix
+  intro q hq
+  rcases hcase with e | e
+  · rw [e]
+    unfold FS.removeAll
+    rw [hres]
+    simp only [hWne, if_false]
+    rw [sn_get_delTree, if_pos hq]
+  · rw [e]
+    exact sn_renameDir_src_gone fs1 _ _ q h1 h2 hq
 
 end Slug
